@@ -7,4 +7,9 @@ require (
 	github.com/cloudwego/gopkg v0.0.0
 )
 
+require (
+	golang.org/x/net v0.24.0 // indirect
+	golang.org/x/text v0.14.0 // indirect
+)
+
 replace github.com/cloudwego/gopkg => /repo
